@@ -777,13 +777,17 @@ package core
 //@   modifies nothing
 //@   ensures result != nil && (result.File == d.keywordCoords.file || (d.BodyCoords.file != nil && result.File == d.BodyCoords.file))
 //@ func (*JApiCore).buildRule(core, d)
-//@   property C03
+//@   property C03,C10
 //@   attr assumesafe
 //@   requires handlerPre(core, d) && core.rules != nil && catalog.omUserRulesInv(core.catalog.UserEnums)
 //@   modifies anything
 //@   keeps directive.Directive, fs.File
 //@   ensures[C03,@setter-error-reported] imp(setterFailed(core, old(core.catalog), old(core.catalog.gFailed)), result != nil)
 //@   ensures[C03,C07,@error-in-directive-file] imp(result != nil, errIn(result, d))
+// an ENUM whose name is taken is rejected every time it is visited - also the ENUM of a macro body on its second PASTE
+// (in the expanded text it is a second ENUM of that name: C10)
+//@   ensures[C03,C10,@duplicate-enum-rejected] imp(old(d.type_ == directive.Enum && d.BodyCoords.file != nil && d.BodyCoords.end != 0
+//@       && d.namedParameters != nil && has(d.namedParameters, "Name") && has(core.catalog.UserEnums.data, d.namedParameters["Name"])), result != nil)
 
 // ---------------------------------------------------------------------------
 // Path schema checks (C01): a Path body may be a reference to a user type of any notation; the walk over the references
